@@ -276,7 +276,7 @@ func runCmap(t *testing.T, c cmapCase) (out cmapOutcome, err error) {
 
 func TestCmapMutex(t *testing.T) {
 	sec := vk.Sec("CmapMutex")
-	vk.Check(t, 4000, 200000, func(rt *rapid.T) {
+	vk.Check(t, 4000, 700000, func(rt *rapid.T) {
 		c := cmapCase{Workers: rapid.IntRange(2, 8).Draw(rt, "workers"), Keys: rapid.IntRange(1, 3).Draw(rt, "keys")}
 		n := rapid.IntRange(1, 30).Draw(rt, "nops")
 		for i := 0; i < n; i++ {
